@@ -238,25 +238,39 @@ def withinLimit (maxIter : Option Nat) (nIter : Nat) : Bool :=
   | none => true
   | some k => decide (nIter ≤ k)
 
-/-- the `while` loop of `glbfloor`, starting at `n_iter`; `fuel` bounds the number of passes when
-    `max_iter is None` (running out of fuel = did not return). -/
-def glbLoop (solve : State α → Option (Answer α)) (mustRefine : List (RectAlloc α) → Bool)
-    (refine : List (RectAlloc α) → List (RectAlloc α)) (εA thr : α) (maxIter : Option Nat) :
-    Nat → Nat → State α → Option (State α)
+/-- the `while` loop of `glbfloor` over an abstract loop state `σ`, starting at `n_iter`:
+    ```
+    while max_iter is None or n_iter <= max_iter:
+        if n_iter > 1:
+            if must_be_refined: allocation = refine   else: break
+        optimize_allocation            # unconditional in the first pass
+        n_iter += 1
+    ```
+    `fuel` bounds the number of passes when `max_iter is None` (running out of fuel = did not return);
+    `optimize = none` = the optimiser raised. -/
+def loopG {σ : Type} (optimize : σ → Option σ) (mustRefine : σ → Bool) (refine : σ → σ) (maxIter : Option Nat) :
+    Nat → Nat → σ → Option σ
   | 0, _, _ => none
   | fuel + 1, nIter, s =>
     if withinLimit maxIter nIter then
       if 1 < nIter then
-        if mustRefine s.1 then
-          match optimizeStep solve εA thr (refine s.1, s.2) with
+        if mustRefine s then
+          match optimize (refine s) with
           | none => none
-          | some s' => glbLoop solve mustRefine refine εA thr maxIter fuel (nIter + 1) s'
+          | some s' => loopG optimize mustRefine refine maxIter fuel (nIter + 1) s'
         else some s
       else
-        match optimizeStep solve εA thr s with
+        match optimize s with
         | none => none
-        | some s' => glbLoop solve mustRefine refine εA thr maxIter fuel (nIter + 1) s'
+        | some s' => loopG optimize mustRefine refine maxIter fuel (nIter + 1) s'
     else some s
+
+/-- the loop of `glbfloor` on (allocation, modules): `refine` / `must_be_refined` act on the allocation, one pass
+    asks the solver and runs `extract_solution` on the offered cells. -/
+def glbLoop (solve : State α → Option (Answer α)) (mustRefine : List (RectAlloc α) → Bool)
+    (refine : List (RectAlloc α) → List (RectAlloc α)) (εA thr : α) (maxIter : Option Nat) :
+    Nat → Nat → State α → Option (State α) :=
+  loopG (optimizeStep solve εA thr) (fun s => mustRefine s.1) (fun s => (refine s.1, s.2)) maxIter
 
 /-- `glbfloor` after `create_initial_allocation` (`n_iter` starts at 1). -/
 def glbfloor (solve : State α → Option (Answer α)) (mustRefine : List (RectAlloc α) → Bool)
